@@ -440,12 +440,32 @@ type connRun struct {
 var connSerial int
 
 // prepareConn writes config.toml and parses it with the repository's ParseConfig.
+// prepareSymlinkedOut makes prepareConn reach the output directory through symbolic links.
+var prepareSymlinkedOut bool
+
 func prepareConn(scratch string, cfg *pConfig, cam pCamera) (*connRun, error) {
 	connSerial++
 	dir := filepath.Join(scratch, fmt.Sprintf("conn%06d", connSerial))
 	r := &connRun{Dir: dir, ConfDir: filepath.Join(dir, "etc"), OutDir: filepath.Join(dir, "out"), Cfg: cfg, Cam: cam}
 	if err := os.MkdirAll(r.ConfDir, 0755); err != nil {
 		return nil, err
+	}
+	if prepareSymlinkedOut {
+		// the configured output directory and its constant-recordings folder are symbolic
+		// links (recordings kept on another partition / a USB stick)
+		real, realConst := filepath.Join(dir, "disk", "out"), filepath.Join(dir, "disk", "const")
+		if err := os.MkdirAll(real, 0755); err != nil {
+			return nil, err
+		}
+		if err := os.MkdirAll(realConst, 0755); err != nil {
+			return nil, err
+		}
+		if err := os.Symlink(real, r.OutDir); err != nil {
+			return nil, err
+		}
+		if err := os.Symlink(realConst, filepath.Join(real, "constant-recordings")); err != nil {
+			return nil, err
+		}
 	}
 	if err := os.MkdirAll(r.OutDir, 0755); err != nil {
 		return nil, err
@@ -596,7 +616,14 @@ func dirListing(dir string) []string {
 	out := []string{}
 	for _, e := range ents {
 		n := e.Name()
-		if e.IsDir() {
+		isDir := e.IsDir()
+		if e.Mode()&os.ModeSymlink != 0 {
+			// a directory reached through a symbolic link is a directory
+			if st, err := os.Stat(filepath.Join(dir, n)); err == nil {
+				isDir = st.IsDir()
+			}
+		}
+		if isDir {
 			n += "/"
 		}
 		out = append(out, n)
